@@ -20,8 +20,10 @@ PY
     continue
   fi
   git -C /repo apply $d/patch.diff
+  cp evidence/$prop.json /var/tmp/evidence_$prop.keep 2>/dev/null   # the run on the changed tree must not leave its evidence behind
   out=$(./check $prop quick 2>&1); rc=$?
   git -C /repo checkout -- . 
+  [ -f /var/tmp/evidence_$prop.keep ] && mv /var/tmp/evidence_$prop.keep evidence/$prop.json
   viol=$(echo "$out" | grep "^VIOLATION" | head -5)
   echo "$id: exit=$rc $(echo "$viol" | head -1 | cut -c1-160)"
   python3 - $d $rc "$viol" "$(echo "$out" | tail -3)" <<'PY'
